@@ -27,6 +27,7 @@ import (
 	"sort"
 	"strings"
 	"sync"
+	"sync/atomic"
 	"time"
 
 	"github.com/0xReLogic/Helios/internal/adminapi"
@@ -132,6 +133,7 @@ type reqInfo struct {
 	b      string
 	plan   string
 	held   chan string // non-nil for plan "hold": receives the final plan
+	sent   int32       // set once the request has reached a backend's transport
 }
 
 // scripted transport shared by all backends of one script
@@ -187,6 +189,7 @@ func (rt *fakeRT) roundTrip(r *http.Request, name string) (*http.Response, error
 	if info != nil {
 		id = info.id
 		plan = info.plan
+		atomic.StoreInt32(&info.sent, 1)
 	}
 	if mode != "" {
 		plan = mode
@@ -438,7 +441,33 @@ type flushRecorder struct {
 	*httptest.ResponseRecorder
 }
 
-func classify(status int, body string, dispatched bool) string {
+// classify names the layer that answered.  The wording of Helios's own refusals is the first clue; should the wording
+// differ (it is not part of any property), an answer to a request that reached no backend is attributed by its status
+// and by what the guards say about themselves.
+func (s *sim) classify(status int, body string, dispatched bool) string {
+	if k := classifyText(status, body); k != "proxied" || dispatched || s.lb == nil {
+		return k
+	}
+	bstate := "none"
+	if cb := s.lb.VerifBreaker(); cb != nil {
+		bstate = cb.State().String()
+	}
+	switch {
+	case status == http.StatusTooManyRequests && s.sc.Cfg.RL.On && bstate != "HALF-OPEN":
+		return "rate_limited"
+	case status == http.StatusTooManyRequests && bstate == "HALF-OPEN" && !s.sc.Cfg.RL.On:
+		return "cb_too_many"
+	case status == http.StatusTooManyRequests && bstate == "HALF-OPEN":
+		return "refused_429" // limiter or half-open budget: cannot be told apart from outside
+	case status == http.StatusServiceUnavailable && bstate == "OPEN":
+		return "cb_open"
+	case status == http.StatusServiceUnavailable:
+		return "no_backend"
+	}
+	return "proxied"
+}
+
+func classifyText(status int, body string) string {
 	switch {
 	case strings.Contains(body, "No healthy backend servers available"):
 		return "no_backend"
@@ -521,7 +550,7 @@ func (s *sim) doReq(st step) {
 		res := rec.Result()
 		b, _ := io.ReadAll(res.Body)
 		ev["status"] = res.StatusCode
-		ev["kind"] = classify(res.StatusCode, string(b), false)
+		ev["kind"] = s.classify(res.StatusCode, string(b), atomic.LoadInt32(&info.sent) == 1)
 		ev["len"] = len(b)
 		ev["backend"] = res.Header.Get("X-Backend")
 		ev["rid"] = nn(res.Header.Values(s.rt.reqH))
